@@ -170,9 +170,11 @@ func (s *Sched) Stop() {
 type SchedLogger struct {
 	S             *Sched
 	GateCollector bool
+	Rec           *TraceRec // when set, the executor's events are recorded for the L1.trace correspondence
 }
 
 func (l SchedLogger) Debug(args ...interface{}) {
+	l.Rec.Observe(args)
 	if len(args) >= 2 {
 		if s, ok := args[0].(string); ok && strings.HasPrefix(s, "Pushing Result") {
 			label := ""
@@ -192,6 +194,7 @@ func (l SchedLogger) Debug(args ...interface{}) {
 }
 // Info: the executor logs "Spawn <insertion point>" before starting each dependent step
 func (l SchedLogger) Info(args ...interface{}) {
+	l.Rec.Observe(args)
 	if len(args) >= 2 {
 		if s, ok := args[0].(string); ok && strings.HasPrefix(s, "Spawn") {
 			label := ""
